@@ -10,7 +10,7 @@ with a writer that accepts `budget` bytes (`-`: never fails); answer
 `!st <B> <hex>` — oracle line, answered from the specification `specReply`.
 
 `e2e <entry> <ncmd> <hex> <b:o,b:o,…>` — DoStream / DoMultiStream of `ncmd` commands entered
-through `entry` (ok | ctxDone | flushErr | closing); `hex` is everything the server sends on
+through `entry` (ok | ctxDone | ctxLate | flushErr | closing); `hex` is everything the server sends on
 the streaming connection; one `budget:over` writer per `WriteTo` call. Answered from
 `Rv.ResultStream.session`: per call `n/err/written/hasNext`, the sticky error, the pool
 summary derived from the event log (held | stored | closed | dead) and which connection
@@ -48,22 +48,19 @@ def parseCall (s : String) : Option (Option Nat × Nat) :=
   | _ => none
 
 def parseEntry (s : String) : Option Entry :=
-  if s == "ok" then some .ok else if s == "ctxDone" then some .ctxDone
+  if s == "ok" then some .ok else if s == "ctxDone" || s == "ctxLate" then some .ctxDone
   else if s == "flushErr" then some .flushErr else if s == "closing" then some .closing else none
 
-def poolShow (k : Entry) (log : List Ev) : String :=
+/-- `dead`: the wire stored at a `ctxDone` entry is the uncounted dead pipe `pool.Acquire` made for a
+    context that was already done (C24); with `late` the context turned done after a live wire was acquired -/
+def poolShow (k : Entry) (late : Bool) (log : List Ev) : String :=
   if countStore log = 0 then "held"
   else if countStore log > 1 then "double-store"
   else if log.contains .close || log.contains .connClose then "closed"
-  else if k == .ctxDone then "dead"
+  else if k == .ctxDone && !late then "dead"
   else "stored"
 
-/-- replay the session once more to know, per call, whether it was answered from the sticky error -/
-def stickyFlags : RS → List SO → List Bool
-  | _, [] => []
-  | s, o :: os => (s.e.isSome || !(decide (s.n > 0))) :: stickyFlags (writeTo s o).1 os
-
-def e2e (k : Entry) (ncmd : Nat) (bs : List UInt8) (calls : List (Option Nat × Nat)) : String :=
+def e2e (k : Entry) (late : Bool) (ncmd : Nat) (bs : List UInt8) (calls : List (Option Nat × Nat)) : String :=
   let s0 := start k ncmd
   let (s, _, rs) := session 524288 s0 bs calls []
   -- which calls were sticky: recompute along the session
@@ -77,7 +74,7 @@ def e2e (k : Entry) (ncmd : Nat) (bs : List UInt8) (calls : List (Option Nat × 
         false :: flags (afterStream s ⟨o.n, o.err, o.clean⟩) o.rest cs
   let fl := flags s0 bs calls
   let shown := (rs.zip fl).map fun (c, f) => callShow c f
-  let pool := poolShow k s.log
+  let pool := poolShow k late s.log
   ";".intercalate shown ++ " e=" ++ stickyShow s.e ++ " pool=" ++ pool ++ " next=" ++
     (if pool == "held" then "-" else if pool == "stored" then "same" else "new")
 
@@ -86,7 +83,7 @@ def step (_ : Unit) (ws : List String) : Unit × String :=
   | ["!next", _] => ((), "own")
   | ["e2e", en, nc, h, cs] =>
     match parseEntry en, nc.toNat?, Hex.decode h, (cs.splitOn ",").mapM parseCall with
-    | some k, some n, some bs, some calls => ((), e2e k n bs calls)
+    | some k, some n, some bs, some calls => ((), e2e k (en == "ctxLate") n bs calls)
     | _, _, _, _ => ((), "bad-op")
   | ["st", b, bud, ov, h] =>
     match b.toNat?, parseBudget bud, ov.toNat?, Hex.decode h with
